@@ -584,7 +584,7 @@ func panicLine(stderr string) string {
 // c20World: the standard fixture plus more in-progress uploads, versions and a delete marker,
 // so that marker / max-* combinations have something to page through.
 func c20World() *World {
-	w := NewWorld("c20", gw.Opts{Versioning: true})
+	w := NewWorld("c20", gw.Opts{Versioning: true, AccessLog: true})
 	for _, k := range []string{w.MpKey, "mpk2", "dir/mpk3", "a-up", "zz-up", "mpk2"} {
 		Must(w.F.Do(gw.Root, "POST", gw.ObjPath(w.Bucket, k), "uploads", nil, nil), "extra upload")
 	}
